@@ -54,7 +54,7 @@ SiteOK(e) == CASE e.ev = "create"  -> /\ PrioInRange(e.prio_min) /\ PrioInRange(
 
 BindingOK(e) == CASE e.ev = "lengths" -> \A j \in 1..Len(e.rows) : e.rows[j][1] = ContigLen(e.rows[j][3], e.k)
                   [] e.ev = "opens"   -> \A j \in 1..Len(e.rows) :
-                                            FooterStart("checked", e.rows[j][1], e.rows[j][2]).out = "err"
+                                            FooterIsErr("checked", e.rows[j][1], e.rows[j][2])
                                               => (e.rows[j][3] = 0 /\ e.rows[j][4] = 0)
                   [] OTHER -> TRUE
 
